@@ -33,6 +33,8 @@ namespace {
 //        20 a valid reply of more than 4096 bytes (larger than the client's receive buffer)
 //   burst <dt_ms> <n>     n lookups at once
 //        18 good A records, then an A record with RDLENGTH 0-3 at the very end   19 an A record with RDLENGTH 5-8, then good ones
+//        21 an RCODE of 6..15 (YXDOMAIN, NOTAUTH, BADVERS...)   22/23 good A records, then a CNAME whose RDLENGTH points behind the
+//        end of the datagram and whose name is cut off by it (22 inside a label, 23 between labels)
 //        17 a label followed by a pointer back to that label (a loop that every single pointer check 'target lies before me' accepts)
 void generate(sim::Rng &r, uint64_t seed, const std::string &tier, sim::Plan &p) {
   bool thorough = tier == "thorough";
@@ -53,7 +55,7 @@ void generate(sim::Rng &r, uint64_t seed, const std::string &tier, sim::Plan &p)
     else {
       long kind;
       unsigned y = (unsigned)r.below(100);
-      if (y < 30) kind = r.range(0, 2); else if (y < 42) kind = r.range(3, 6); else kind = r.range(7, 20);
+      if (y < 30) kind = r.range(0, 2); else if (y < 42) kind = r.range(3, 6); else kind = r.range(7, 23);
       op.kind = "reply"; op.a = {dt, (long)r.below((uint64_t)made), kind, (long)r.below(80), r.range(0, 4)};
     }
     p.ops.push_back(op);
@@ -63,7 +65,7 @@ void generate(sim::Rng &r, uint64_t seed, const std::string &tier, sim::Plan &p)
 
 static const char *DOMAINS[] = {"a.example.com", "www.test.org", "x.y", "host", "very.long.sub.domain.name.example.net", "q.example.com"};
 
-struct Sent { uint32_t serial; std::vector<uint8_t> bytes; };
+struct Sent { uint32_t serial; std::vector<uint8_t> bytes; int64_t t = 0; };
 
 struct Lookup {
   uint16_t id = 0; bool made = false; bool cancelled = false; int64_t t_req = 0; int64_t t_cancel = 0;
@@ -120,11 +122,12 @@ std::vector<uint8_t> craft(const Lookup &l, long kind, long arg, long nrec, uint
   unsigned flags = 0x8180;
   if (kind == 3) flags |= 3; if (kind == 4) flags |= 2; if (kind == 5) flags |= 5; if (kind == 6) flags |= 1;
   if (kind == 14) flags = 0x0100;
+  if (kind == 21) flags |= (unsigned)(6 + arg % 10);
   if (kind == 15) { for (long i = 0; i < std::min(3L, arg % 4); ++i) b.push_back(i == 0 ? (uint8_t)(id >> 8) : (uint8_t)id); return b; }
   put16(b, id); put16(b, flags);
   if (kind == 12) { sim::Rng rr((uint64_t)serial); long n = 4 + arg; for (long i = 0; i < n; ++i) b.push_back((uint8_t)rr.below(256)); return b; }
   long an = std::max(0L, std::min(4L, nrec));
-  long an_field = an + (kind == 1 ? 1 : 0) + (kind == 2 ? 1 : 0) + (kind == 18 ? 1 : 0) + (kind == 19 ? 1 : 0);
+  long an_field = an + (kind == 1 ? 1 : 0) + (kind == 2 ? 1 : 0) + (kind == 18 ? 1 : 0) + (kind == 19 ? 1 : 0) + (kind == 22 || kind == 23 ? 1 : 0);
   if (kind == 8) an_field = 200 + arg;
   if (kind == 20) an_field = 300;        // filled in below: a datagram larger than the client's 4096-byte receive buffer
   put16(b, 1); put16(b, (unsigned)an_field); put16(b, 0); put16(b, 0);
@@ -155,7 +158,7 @@ std::vector<uint8_t> craft(const Lookup &l, long kind, long arg, long nrec, uint
   if (kind == 1) { name_ptr(qname_off); put16(b, 5); put16(b, 1); put32(b, serial); std::vector<uint8_t> cn; put_name(cn, "alias" + std::to_string(arg) + ".example.org"); put16(b, (unsigned)cn.size()); b.insert(b.end(), cn.begin(), cn.end()); }
   if (kind == 2) { name_ptr(qname_off); put16(b, 16); put16(b, 1); put32(b, serial); put16(b, 5); for (int i = 0; i < 5; ++i) b.push_back((uint8_t)('t' + i)); }
   if (kind == 19) { name_ptr(qname_off); put16(b, 1); put16(b, 1); put32(b, serial); long n = 5 + arg % 4; put16(b, (unsigned)n); for (long i = 0; i < n; ++i) b.push_back((uint8_t)(77 + i)); }   // an A record that is too long, before the good ones
-  if (kind <= 2 || kind == 7 || kind == 8 || kind == 14 || kind == 13 || kind == 18 || kind == 19) {
+  if (kind <= 2 || kind == 7 || kind == 8 || kind == 14 || kind == 13 || kind == 18 || kind == 19 || kind == 22 || kind == 23) {
     for (long i = 0; i < an; ++i) {
       if (i % 2 == 0) name_ptr(qname_off); else put_name(b, l.domain);
       put16(b, 1); put16(b, 1); put32(b, serial); put16(b, 4);
@@ -163,6 +166,13 @@ std::vector<uint8_t> craft(const Lookup &l, long kind, long arg, long nrec, uint
     }
   }
   if (kind == 18) { name_ptr(qname_off); put16(b, 1); put16(b, 1); put32(b, serial); long n = arg % 4; put16(b, (unsigned)n); for (long i = 0; i < n; ++i) b.push_back((uint8_t)(66)); }   // a short A record (0-3 bytes of address) ends the datagram
+  if (kind == 22 || kind == 23) {
+    name_ptr(qname_off); put16(b, 5); put16(b, 1); put32(b, serial); put16(b, (unsigned)(20 + arg * 7));
+    b.push_back(5); for (char c : std::string("alias")) b.push_back((uint8_t)c);
+    if (kind == 22) { b.push_back(7); b.push_back('e'); b.push_back('x'); b.push_back('a'); }        // the datagram ends inside the label
+    else { b.push_back(2); b.push_back('e'); b.push_back('x'); }                                         // ... or right behind one, without a terminator
+    return b;
+  }
   if (kind == 20) {
     // A records until the datagram is a few bytes longer than 4096: the last record straddles the end of the receive buffer
     long cnt = 0;
@@ -256,6 +266,7 @@ void execute(const sim::Plan &plan) {
   sim::set_deadlock_handler([](const sim::DeadlockInfo &info) { sim::violation("C15/loop-never-wakes", "the loop blocks for ever before the end of the plan: " + info.summary); });
   sim::set_stepcap_handler([] { sim::violation("C15/livelock", "step cap reached"); });
   W = World();
+  sim::poison_recv_tail(true);        // bytes of the receive buffer behind the datagram are out of bounds for the parser
   W.srv = socket(AF_INET, SOCK_DGRAM, 0);
   struct sockaddr_in sa; memset(&sa, 0, sizeof sa); sa.sin_family = AF_INET; sa.sin_addr.s_addr = htonl(INADDR_LOOPBACK); sa.sin_port = 0;
   if (bind(W.srv, (struct sockaddr *)&sa, sizeof sa) != 0) { perror("bind udp"); _exit(3); }
@@ -295,8 +306,8 @@ void execute(const sim::Plan &plan) {
         if (W.lk.empty()) return;
         Lookup &L = W.lk[(size_t)(std::max(0L, op->arg(1)) % (long)W.lk.size())];
         uint32_t serial = ++W.serial;
-        std::vector<uint8_t> b = craft(L, ((op->arg(2) % 21) + 21) % 21, std::max(0L, op->arg(3)), op->arg(4), serial);
-        W.sent.push_back(Sent{serial, b});
+        std::vector<uint8_t> b = craft(L, ((op->arg(2) % 24) + 24) % 24, std::max(0L, op->arg(3)), op->arg(4), serial);
+        W.sent.push_back(Sent{serial, b, sim::now_ns()});
         sim::trace("reply kind=%ld serial=%u len=%zu", op->arg(2), serial, b.size());
         sim::relevant();
         send_reply(b);
@@ -333,6 +344,23 @@ void execute(const sim::Plan &plan) {
     if (L.status == (int)DnsRequest::Result::Status::kTimeout) {
       int64_t d = L.t_cb - L.t_req;
       if (d < 4 * S || d > 5 * S + S / 1000) sim::violation("C15/timeout-at-wrong-time", sim::fmt("lookup #%zu timed out %.3f s after the request (expected within [4 s, 5 s])", i, d / 1e9));
+    }
+    // the status is one of the documented ones, and an error status has its cause among the datagrams sent for this lookup
+    if (L.status < 0 || L.status > (int)DnsRequest::Result::Status::kFail) { sim::violation("C15/status-not-an-enumerator", sim::fmt("lookup #%zu completed with status %d, which is no Result::Status", i, L.status)); continue; }
+    if (L.status == (int)DnsRequest::Result::Status::kAllDnsFail || L.status == (int)DnsRequest::Result::Status::kDomainError) {
+      long server_fail = 0, name_error = 0;
+      for (const Sent &s : W.sent) {
+        if (s.t < L.t_req || s.t > L.t_cb) continue;
+        uint16_t id; bool resp; int rcode;
+        ref_decode(s.bytes, id, resp, rcode);
+        if (s.bytes.size() < 4 || id != L.id || !resp) continue;
+        if (rcode == 3) ++name_error; else if (rcode != 0 && rcode != 1) ++server_fail;
+      }
+      long nsrv_ = std::max(1L, std::min(3L, plan.get("nsrv", 1)));
+      if (L.status == (int)DnsRequest::Result::Status::kAllDnsFail && server_fail < nsrv_)
+        sim::violation("C15/all-servers-failed-too-early", sim::fmt("lookup #%zu reported that all name servers failed after %ld failure replies; %ld servers are configured", i, server_fail, nsrv_));
+      if (L.status == (int)DnsRequest::Result::Status::kDomainError && name_error == 0)
+        sim::violation("C15/domain-error-without-cause", sim::fmt("lookup #%zu reported a name error, but no reply with RCODE 3 was sent for it", i));
     }
     // everything reported must be encoded in one datagram that answers this lookup
     std::set<uint32_t> ttls;
